@@ -267,6 +267,47 @@ func cmdRun(args []string) int {
 					exit = 1
 					continue
 				}
+				if strings.HasPrefix(v.Label, "C25:no-map-race ") {
+					// a predicted race is confirmed by Go's race detector on the
+					// real code (same harness, its two threads in two goroutines)
+					sides := strings.SplitN(strings.TrimPrefix(v.Label, "C25:no-map-race "), " ~ ", 2)
+					fnOf := func(s string) string {
+						f := strings.Fields(s)
+						if len(f) >= 2 {
+							return f[1]
+						}
+						return s
+					}
+					if len(sides) != 2 {
+						broken = append(broken, "malformed race label "+v.Label)
+						continue
+					}
+					ok, detail, err := nr.runRace(h.Pkg, h.Func, rp, fnOf(sides[0]), raceFns(sides[1]))
+					if err != nil {
+						return fail(err.Error())
+					}
+					if !ok {
+						// a dynamic detector sees a race only in a run that leaves the two
+						// accesses unordered: an unconfirmed prediction is not reported
+						he.Inconclusive = append(he.Inconclusive, fmt.Sprintf("predicted race %q not confirmed by the race detector on the real code in 16 runs (%s)", v.Label, detail))
+						os.Remove(rp)
+						continue
+					}
+					if k := matchKnown(known, id, h.Func, v.Label, v.Pos+" "+v.Msg); k != nil {
+						kk := k.Harness + "|" + k.Label + "|" + k.PosHint
+						if !knownPrinted[kk] {
+							fmt.Printf("KNOWN-FINDING: property=%s %s\n", id, k.What)
+							knownPrinted[kk] = true
+						}
+						os.Remove(rp)
+						continue
+					}
+					fmt.Printf("VIOLATION property=%s replay=%s\n", id, rp)
+					fmt.Printf("  harness=%s config=%v kind=race label=%q pos=%s (%s)\n", h.Func, cfg, v.Label, v.Pos, detail)
+					nViol++
+					exit = 1
+					continue
+				}
 				nv, err := nr.run(h.Pkg, h.Func, rp)
 				if err != nil {
 					return fail(err.Error())
